@@ -260,6 +260,12 @@ func (a *DateArg) Parse() error {
 	if len(str) != 10 {
 		return ErrInval
 	}
+	/* only digits and the two dashes (Atoi would accept a sign) */
+	for pos, c := range str {
+		if (pos == 4 || pos == 7) != (c == '-') || (c != '-' && (c < '0' || c > '9')) {
+			return ErrInval
+		}
+	}
 
 	/* 4DIGIT */
 	i = strings.Index(str, "-")
